@@ -23,8 +23,8 @@ def create_cache(
 ) -> LRUCache | HybridCache | DiskCache | SimpleCache | None:
     if cache_type is None:
         return None
-    if cache_kwargs is None:
-        cache_kwargs = {}
+    # Copy because the defaults below must not end up in the caller's dict (shared by `Pipeline.copy`)
+    cache_kwargs = {} if cache_kwargs is None else dict(cache_kwargs)
     if cache_type == "lru":
         cache_kwargs.setdefault("shared", not lazy)
         return LRUCache(**cache_kwargs)
